@@ -390,7 +390,7 @@ def check_case(text, ks, strict=False, expects=None):
     ok, out = res[0]
     if not ok:
         # the recurrence engine itself crashes or hangs on this text (C01/C02 territory): nothing to say about C05
-        info['engine_crash'] = 1
+        info['engine_timeout' if 'signal=14' in out.split('\n')[-1] else 'engine_crash'] = 1
         return [], out, info
     V = []
     outs = [out]
